@@ -206,10 +206,59 @@ def main() -> None:
     elif cmd == "table":
         mode = inplace if "--inplace" in args else run
         args = [a for a in args if a != "--inplace"]
-        for seed_id in sorted(os.listdir(SEEDED)):
-            if os.path.exists(os.path.join(SEEDED, seed_id, "patch.diff")):
-                print(json.dumps(mode(seed_id, list(args))))
+        jobs = int(_opt(args, "--jobs", "1"))
+        record = "--record" in args
+        args = [a for a in args if a != "--record"]
+        ids = [d for d in sorted(os.listdir(SEEDED)) if os.path.exists(os.path.join(SEEDED, d, "patch.diff"))]
+        if mode is inplace:
+            jobs = 1
+
+        def one(seed_id):
+            res = mode(seed_id, list(args))
+            if record and "results" in res:
+                meta_path = os.path.join(SEEDED, seed_id, "meta.json")
+                meta = json.load(open(meta_path))
+                for check, r in res["results"].items():
+                    meta.setdefault("detected_by", {})[check] = {
+                        "detected": r["exit"] == 1,
+                        "exit": r["exit"],
+                        "tier": res["tier"],
+                        "seed": res["seed"],
+                        "mode": res.get("mode", "scratch copy of /repo/src on PYTHONPATH"),
+                        "first_clause": (r["clauses"][0].replace("violated clause: ", "") if r["clauses"] else None),
+                        "verif_commit": sh(["git", "-C", VERIF, "rev-parse", "--short", "HEAD"]).stdout.strip(),
+                    }
+                json.dump(meta, open(meta_path, "w"), indent=1)
+            return res
+
+        if jobs > 1:
+            from concurrent.futures import ThreadPoolExecutor
+
+            with ThreadPoolExecutor(max_workers=jobs) as pool:
+                for res in pool.map(one, ids):
+                    print(json.dumps(res))
+                    sys.stdout.flush()
+        else:
+            for seed_id in ids:
+                print(json.dumps(one(seed_id)))
                 sys.stdout.flush()
+    elif cmd == "report":
+        print("| id | property | what it needs in order to manifest | detected by (quick tier) | first violated clause |")
+        print("|---|---|---|---|---|")
+        hit = total = 0
+        for seed_id in sorted(os.listdir(SEEDED)):
+            meta_path = os.path.join(SEEDED, seed_id, "meta.json")
+            if not os.path.exists(meta_path):
+                continue
+            meta = json.load(open(meta_path))
+            det = meta.get("detected_by", {})
+            own = det.get(meta["property"], {})
+            total += 1
+            hit += 1 if own.get("detected") else 0
+            others = [c for c, r in det.items() if r.get("detected") and c != meta["property"]]
+            cell = (meta["property"] if own.get("detected") else "**not by " + meta["property"] + "**") + (" (also " + ", ".join(others) + ")" if others else "")
+            print(f"| {seed_id} | {meta['property']} | {meta['needs_to_manifest']} | {cell} | {own.get('first_clause') or ''} |")
+        print(f"\n{hit} of {total} seeded regressions are detected by the quick tier of the check of the property they were written against.")
     else:
         print(__doc__)
 
